@@ -45,6 +45,7 @@ func init() {
 			{ID: "C14.24", Desc: "the repository's error sentinels are matched with errors.Is", Run: func(c *Ctx) { ruleSentinelsByErrorsIs(c, "C14.24") }, MinSites: 1},
 			{ID: "C14.25", Desc: "the memory backend stores a copy of its own of every value", Run: func(c *Ctx) { ruleStoredValueIsFresh(c, "C14.25") }, MinSites: 1},
 			{ID: "C14.26", Desc: "an absent key reports the not-exist error also with update_mtime (the read comes first)", Run: func(c *Ctx) { ruleReadComesFirstInGet(c, "C14.26") }, MinSites: 1},
+			{ID: "C14.27", Desc: "the root handle is opened on the directory created for base directory and application name", Run: func(c *Ctx) { ruleRootIsTheCreatedDirectory(c, "C14.27") }, MinSites: 1},
 		},
 	})
 }
